@@ -78,15 +78,15 @@ var c24Configs = []c24Config{
 // ---- operations -------------------------------------------------------------
 
 const (
-	c24OpApp1 = iota // append one small item
-	c24OpApp2        // append a medium and a large item (the large one exceeds a data file)
-	c24OpSync        // SyncAncient
-	c24OpTH1         // TruncateHead(head-1)
-	c24OpTH2         // TruncateHead(head-2)
-	c24OpTT1         // TruncateTail(group, tail+1)
-	c24OpTT2         // TruncateTail(group, tail+2)
-	c24OpTTOver      // TruncateTail(group, head+1): reset beyond the head (only when every table is in the group)
-	c24OpReopen      // clean Close + NewFreezer
+	c24OpApp1   = iota // append one small item
+	c24OpApp2          // append a medium and a large item (the large one exceeds a data file)
+	c24OpSync          // SyncAncient
+	c24OpTH1           // TruncateHead(head-1)
+	c24OpTH2           // TruncateHead(head-2)
+	c24OpTT1           // TruncateTail(group, tail+1)
+	c24OpTT2           // TruncateTail(group, tail+2)
+	c24OpTTOver        // TruncateTail(group, head+1): reset beyond the head (only when every table is in the group)
+	c24OpReopen        // clean Close + NewFreezer
 	c24NumOps
 )
 
@@ -99,11 +99,11 @@ type c24Val struct {
 
 // c24Model is the reference model: what a caller of the freezer API knows.
 type c24Model struct {
-	head, tail uint64             // tail: tail of the group
-	gen        int                // number of append operations so far
-	latest     map[uint64]c24Val  // the latest payload appended at each number (survives truncation until re-appended)
-	hi         uint64             // items [lo, hi) were covered by a completed SyncAncient and not truncated since
-	lo0, loG   uint64             // lo for non-prunable tables / for tables of the group
+	head, tail uint64            // tail: tail of the group
+	gen        int               // number of append operations so far
+	latest     map[uint64]c24Val // the latest payload appended at each number (survives truncation until re-appended)
+	hi         uint64            // items [lo, hi) were covered by a completed SyncAncient and not truncated since
+	lo0, loG   uint64            // lo for non-prunable tables / for tables of the group
 	hasObl     bool
 }
 
@@ -608,13 +608,13 @@ func c24Variants(cfg c24Config, ops []int, tries int, mergeMeta bool) ([]*c24Run
 }
 
 type c24Case struct {
-	Cfg    string       `json:"cfg"`
-	Ops    []string     `json:"ops"`
-	Order  string       `json:"table_order"`
-	K      int          `json:"crash_after_event"`
-	Event  string       `json:"last_event"`
-	Loss   vos.Pattern  `json:"loss"`
-	Nested *c24Nested   `json:"nested,omitempty"`
+	Cfg    string      `json:"cfg"`
+	Ops    []string    `json:"ops"`
+	Order  string      `json:"table_order"`
+	K      int         `json:"crash_after_event"`
+	Event  string      `json:"last_event"`
+	Loss   vos.Pattern `json:"loss"`
+	Nested *c24Nested  `json:"nested,omitempty"`
 }
 
 type c24Nested struct {
@@ -1005,8 +1005,14 @@ func c24ReplayTarget() *c24Case {
 	return f.Replay
 }
 
-func c24RunSpace(r *mc.R, cfg c24Config, alphabet []int, depth int, p c24Params, seen *sync.Map, fd *c24Findings) {
-	seqs := c24Sequences(cfg, alphabet, depth)
+func c24RunSpace(r *mc.R, cfg c24Config, alphabet []int, minLen, depth int, p c24Params, seen *sync.Map, fd *c24Findings) {
+	all := c24Sequences(cfg, alphabet, depth)
+	var seqs [][]int
+	for _, sq := range all {
+		if len(sq) >= minLen {
+			seqs = append(seqs, sq)
+		}
+	}
 	if tgt := c24ReplayTarget(); tgt != nil && r.Replaying() {
 		var keep [][]int
 		for _, sq := range seqs {
@@ -1016,13 +1022,14 @@ func c24RunSpace(r *mc.R, cfg c24Config, alphabet []int, depth int, p c24Params,
 		}
 		seqs = keep
 	}
-	r.Bound(cfg.name+".sequences", len(seqs))
-	r.Bound(cfg.name+".depth", depth)
+	stage := fmt.Sprintf("%s.len%d-%d", cfg.name, minLen, depth)
+	r.Bound(stage+".sequences", len(seqs))
+	r.Bound(stage+".torn_grid_full", p.full)
 	names := make([]string, len(alphabet))
 	for i, o := range alphabet {
 		names[i] = c24OpNames[o]
 	}
-	r.Bound(cfg.name+".alphabet", names)
+	r.Bound(stage+".alphabet", names)
 	// longest sequences first: better load balance
 	order := make([]int, len(seqs))
 	for i := range order {
@@ -1102,25 +1109,27 @@ func TestVerif_C24(t *testing.T) {
 		fd := &c24Findings{class: map[string]*c24Finding{}}
 		defer fd.report(r)
 		p := c24Params{full: false, productCap: 100, maxDev: 1, nested: true, cont: true, mergeMeta: true, tries: 24, post: &sync.Map{}}
-		depth := 3
-		if r.Thorough() {
-			p.full = true
-			p.productCap = 3000
-			p.maxDev = 1
-			depth = 4
-		}
 		r.Bound("maxTableSize", c24MaxTable)
-		r.Bound("torn_append_grid", mc.Pick(r, "cut at every byte R; zero extension to L in {R, end}", "cut at every byte R; zero extension to every L"))
-		r.Bound("loss_patterns", fmt.Sprintf("full product per crash point when <= %d images, else all-kept and all-lost baselines with <= %d deviating file(s)", p.productCap, p.maxDev))
 		r.Bound("nested_crash", "recovery of the all-kept and all-lost images is itself crashed at every event (baseline loss patterns), bound 1")
 		full := []int{c24OpApp1, c24OpApp2, c24OpSync, c24OpTH1, c24OpTH2, c24OpTT1, c24OpTT2, c24OpTTOver, c24OpReopen}
-		c24RunSpace(r, c24Configs[0], full, depth, p, seen, fd)
-		c24RunSpace(r, c24Configs[1], full, depth, p, seen, fd)
 		if !r.Replaying() {
 			c24TornMetaProbe(r)
 		}
-		if r.Thorough() {
-			c24RunSpace(r, c24Configs[2], []int{c24OpApp1, c24OpApp2, c24OpSync, c24OpTH1, c24OpTT1, c24OpTT2}, 3, p, seen, fd)
+		if r.Quick() {
+			r.Bound("loss_patterns", "torn appends cut at every byte R, zero extension to L in {R, end}; full product per crash point when <= 100 images, else all-kept/all-lost baselines with one deviating file")
+			c24RunSpace(r, c24Configs[0], full, 0, 3, p, seen, fd)
+			c24RunSpace(r, c24Configs[1], full, 0, 3, p, seen, fd)
+			return
 		}
+		// thorough stage 1: histories <= 3 with the complete (R,L) grid and a larger product cap, plus a chain-like 3-table layout
+		r.Bound("loss_patterns", "stage 1 (len<=3): torn appends cut at every byte R, zero extension to every L, full product when <= 3000 images; stage 2 (len 4): as quick")
+		p1 := p
+		p1.full, p1.productCap = true, 3000
+		c24RunSpace(r, c24Configs[0], full, 0, 3, p1, seen, fd)
+		c24RunSpace(r, c24Configs[1], full, 0, 3, p1, seen, fd)
+		c24RunSpace(r, c24Configs[2], []int{c24OpApp1, c24OpApp2, c24OpSync, c24OpTH1, c24OpTT1, c24OpTT2}, 0, 3, p1, seen, fd)
+		// thorough stage 2: histories of length 4 with the quick loss patterns
+		c24RunSpace(r, c24Configs[0], full, 4, 4, p, seen, fd)
+		c24RunSpace(r, c24Configs[1], full, 4, 4, p, seen, fd)
 	})
 }
